@@ -87,6 +87,10 @@ NRings = z3.Function('NumRings', IS, IS)
 RingSize = z3.Function('RingSize', IS, IS, IS)
 RingAtom = z3.Function('RingAtom', IS, IS, IS, IS)
 RingHas = z3.Function('RingHas', IS, IS, IS, BS)
+MinRingSize = z3.Function('MinAtomRingSize', IS, IS, IS)
+MinRingWitness = z3.Function('MinRingWitness', IS, IS, IS)
+InRingOfSize = z3.Function('IsAtomInRingOfSize', IS, IS, IS, BS)
+RingOfSizeWitness = z3.Function('RingOfSizeWitness', IS, IS, IS, IS)
 HasBond = z3.Function('HasBond', IS, IS, IS, BS)
 BondBetween = z3.Function('BondBetween', IS, IS, IS, IS)
 TRUSTED2 = ('rdkit observers are functions of (molecule, atom/bond index): GetNumRadicalElectrons, GetFormalCharge, IsInRing, GetIsAromatic, '
@@ -211,7 +215,49 @@ def ringinfo_attr(I, o, name):
             I_.ctx.assume(NRings(mid) >= 0)
             return NRings(mid)
         return Builtin('RingInfo.NumRings', g)
+    if name == 'MinAtomRingSize':
+        # smallest ring through the atom (0 if none): lower bound of every ring through it (schema) + a witness ring attaining it
+        def h(I_, a, k):
+            ctx = I_.ctx
+            idx = z3_of(a[0])
+            mn, w = MinRingSize(mid, idx), MinRingWitness(mid, idx)
+            r = z3.Int('r!mrs')
+            ctx.assume_forall([r], z3.Implies(z3.And(0 <= r, r < NRings(mid), RingHas(mid, r, idx)), z3.And(mn <= RingSize(mid, r), AInRing(mid, idx))), 'MinAtomRingSize is a lower bound')
+            ctx.assume(z3.If(AInRing(mid, idx), z3.And(0 <= w, w < NRings(mid), RingHas(mid, w, idx), RingSize(mid, w) == mn, mn >= 3), mn == 0))
+            ctx.instantiate([w])
+            return mn
+        return Builtin('RingInfo.MinAtomRingSize', h)
+    if name == 'IsAtomInRingOfSize':
+        def h2(I_, a, k):
+            ctx = I_.ctx
+            idx, n = z3_of(a[0]), z3_of(a[1])
+            b, w = InRingOfSize(mid, idx, n), RingOfSizeWitness(mid, idx, n)
+            r = z3.Int('r!irs')
+            ctx.assume_forall([r], z3.Implies(z3.And(0 <= r, r < NRings(mid), RingHas(mid, r, idx), RingSize(mid, r) == n), b), 'IsAtomInRingOfSize: every such ring makes it true')
+            ctx.assume(z3.Implies(b, z3.And(0 <= w, w < NRings(mid), RingHas(mid, w, idx), RingSize(mid, w) == n)))
+            ctx.instantiate([w])
+            return b
+        return Builtin('RingInfo.IsAtomInRingOfSize', h2)
     return NotImplementedVal
+
+
+def witness_terms(formulas):
+    """applications of the witness functions of the ring observers occurring in the path condition"""
+    out, seen = [], set()
+
+    def walk(e):
+        if e.get_id() in seen:
+            return
+        seen.add(e.get_id())
+        if z3.is_app(e):
+            if e.decl().name() in ('MinRingWitness', 'RingOfSizeWitness') and e.sexpr() not in [x.sexpr() for x in out]:
+                out.append(e)
+            for c in e.children():
+                walk(c)
+    for f in formulas:
+        if is_z3(f):
+            walk(f)
+    return out
 
 
 def install2(world):
